@@ -368,7 +368,16 @@ class Exec:
                     terms.append(z3.StringVal(p))
                 else:
                     v = next(it)
-                    terms.append(self.eng.format_str(v))
+                    if p.format_spec is not None or p.conversion not in (-1, 115):
+                        # a format specification ({x:g}, {x:>8}) or a !r / !a conversion: not str(x) -- the text is
+                        # an unspecified function of the value and the specification
+                        spec = ast.unparse(p.format_spec) if p.format_spec is not None else ""
+                        bv = box(v) if isinstance(v, V) else None
+                        if bv is None:
+                            raise Unsupported("formatted value of a host object")
+                        terms.append(self.eng.opaque_fn_str(f"format[{p.conversion}|{spec}]", bv))
+                    else:
+                        terms.append(self.eng.format_str(v))
             if not terms:
                 yield st1, S.mk_str("")
             elif len(terms) == 1:
